@@ -32,8 +32,25 @@ def state_class(xml_text):
     return (min(n, 6), mix, tab['start0'] is not None, ex, min(paras, 4), min(items, 4))
 
 
+_SWEEPS = [0]
+
+
 def sweep(s, ro, state_xml, ctx=None, after=None):
     """Returns number of accessor calls made."""
+    _SWEEPS[0] += 1
+    if _SWEEPS[0] % 9 == 4 and not (ctx or {}).get('copied'):
+        # the running order a caller keeps may be a COPY of the one that was merged into (copy.deepcopy, a pickle
+        # round trip through a queue or a cache): the same document, so the same answers
+        import copy
+        import pickle
+        try:
+            dup = copy.deepcopy(ro) if _SWEEPS[0] % 2 else pickle.loads(pickle.dumps(ro))
+        except Exception as e:
+            dup = None
+            s.hist['states_that_cannot_be_copied:' + type(e).__name__] += 1
+        if dup is not None:
+            s.hist['states_swept_as_a_copy'] += 1
+            sweep(s, dup, state_xml, dict(ctx or {}, copied='deepcopy' if _SWEEPS[0] % 2 else 'pickle'), after)
     calls = 0
     wit = {'type': 'state', 'xml': state_xml}
     if ctx:
